@@ -15,11 +15,11 @@ A_ITER = [
 PROPS = {
     "C17": dict(
         kani=True,
-        slices=["time", "network", "net_enum"],
+        slices=["time", "network", "net_enum", "network_new"],
         witness_family="net",
         level_text="Verus proves, for all networks satisfying Network::wf and all node pairs, that the real Network::can_reach / minimal_duration_between_nodes equal the timing rule written from the property statement; claims nothing about JSON loading",
         level_note="trusted: vstd specs, key-model axioms for derived Hash, structural derived Eq/Ord; instance validity (Network::wf) is a precondition",
-        scope="can_reach / minimal_duration_between_nodes equal the documented timing rule for all networks and node pairs; successors/predecessors: the scanned key range contains every reachable node and the filter keeps exactly the reachable ones (ties included)",
+        scope="can_reach / minimal_duration_between_nodes equal the documented timing rule for all networks and node pairs; successors/predecessors: the scanned key range contains every reachable node and the filter keeps exactly the reachable ones (ties included); Network::new / create_network / create_depots (R8 fragments): the overflow depot has no per-type limit and capacity >= every demand the flow stage can raise, default depots get capacity = number of service trips for every type",
         assumptions=A_COMMON + [
             "JSON loading (model/src/json_serialisation/mod.rs: serde, string look-ups) is not under contract",
             "A-lib: BTreeMap::range(b) yields exactly the entries whose key lies in b (derived lexicographic tuple order); filter_map(f) keeps exactly the Some images; the plumbing around the lifted fragments is pinned by a skeleton hash",
@@ -42,9 +42,9 @@ PROPS["C12"] = dict(
 
 
 PROPS["C01"] = dict(
-    slices=["network", "net_enum", "tour_pos", "tour_mod", "path", "tour_ctor"],
+    slices=["network", "net_enum", "tour_pos", "tour_mod", "path", "tour_ctor", "sched_guard"],
     witness_family="tour",
-    level_text="Verus proves on the real code: can_reach equals the documented timing rule; Tour::new_allow_invalid returns Ok exactly for node sequences that start at a start depot, end at an end depot, have only activities in between, at least one of them, and are pairwise connectable; replace_start_depot, replace_end_depot, remove and insert_path (given a connected path, which Path::new is proved to establish) preserve that invariant (Tour::wf); successors/predecessors enumerate exactly the connectable nodes. Type feasibility, Tour::new_dummy and the JSON writer are assumptions, not proved",
+    level_text="Verus proves on the real code: can_reach equals the documented timing rule; Tour::new_allow_invalid returns Ok exactly for node sequences that start at a start depot, end at an end depot, have only activities in between, at least one of them, and are pairwise connectable; replace_start_depot, replace_end_depot, remove and insert_path (given a connected path, which Path::new is proved to establish) preserve that invariant (Tour::wf); successors/predecessors enumerate exactly the connectable nodes. The schedule-level type guard check_receiver_type_compatibility returns true only if every moved node is compatible with the receiver's vehicle type. Tour::new_dummy, the other type guards (spawn / add_path) and the JSON writer are assumptions, not proved",
     level_note="trusted: vstd, key-model axioms, derived Eq/Ord, the SeqIter shim, to_vec/Option::or/Result::unwrap_or specs, A-fmt; stub: Tour::position_of; A-path (paths handed to insert_path are connected), A-type (compatible_with_vehicle_type guards in schedule/modifications.rs) and A-json are caller-side assumptions",
     scope="tour-level feasibility invariant under the constructor and all four modifiers of solution/src/tour",
     assumptions=A_COMMON + A_ITER + [
@@ -54,9 +54,9 @@ PROPS["C01"] = dict(
     ],
 )
 PROPS["C10"] = dict(
-    slices=["network", "tour_pos", "tour_mod", "path"],
+    slices=["network", "tour_pos", "tour_mod", "path", "sched_guard"],
     witness_family="tour",
-    level_text="clause 1 only (every vehicle tour is a chronological path of connectable nodes from a start depot to an end depot with activities in between): same obligations as C01 on the Tour constructor and modifiers; formation/tour agreement, sorted listings, depot usage and cycle membership of schedules are NOT decided",
+    level_text="clause 1 (every vehicle tour is a chronological path of connectable nodes from a start depot to an end depot with activities in between): same obligations as C01 on the Tour constructor and modifiers; cycle-membership clause: update_transitions_and_violation_fast keeps every type's rotation cycles well formed w.r.t. the new tours with exactly the new real vehicles of the type as members (under the stated caller-side precondition: no vehicle listed twice); formation/tour agreement, sorted listings and depot limits of whole schedules are NOT decided",
     level_note="same trusted base and caller-side assumptions as C01",
     scope="Tour::wf established by new_allow_invalid and preserved by replace_start_depot / replace_end_depot / remove / insert_path",
     assumptions=A_COMMON + A_ITER + ["A-path, A-type as for C01", "schedule-level invariants (formations, listings, depot usage, cycles) not under contract"],
@@ -79,9 +79,9 @@ PROPS["C03"] = dict(
 )
 PROPS["C09"] = dict(
     kani=True,
-    slices=["tour_mod", "formation", "depot_usage"],
+    slices=["tour_mod", "formation", "depot_usage", "sched_guard"],
     witness_family="tour",
-    level_text="tour level: Verus proves that compute_*_of_nodes (and hence new_computing / every freshly built tour) equal the from-scratch meaning of the five cached figures written from the property text, and that replace_start_depot, replace_end_depot, remove and insert_path keep all five caches exact (delta formulas = recomputation), including tours through the infinitely distant overflow depot; schedule level: the depot-usage table stays exact for the updated vehicle and untouched for all others under update_depot_usage (from-scratch meaning: spawned/despawned sets per depot and type), depot_balance / total_depot_balance_violation are the sizes' differences resp. their absolute sum, update_tour_and_costs applies exactly the cost delta; the other schedule aggregates (costs across whole modifications, unserved passengers, maintenance violation) are NOT decided",
+    level_text="tour level: Verus proves that compute_*_of_nodes (and hence new_computing / every freshly built tour) equal the from-scratch meaning of the five cached figures written from the property text, and that replace_start_depot, replace_end_depot, remove and insert_path keep all five caches exact (delta formulas = recomputation), including tours through the infinitely distant overflow depot; schedule level: the depot-usage table stays exact for the updated vehicle and untouched for all others under update_depot_usage (from-scratch meaning: spawned/despawned sets per depot and type), depot_balance / total_depot_balance_violation are the sizes' differences resp. their absolute sum, update_tour_and_costs applies exactly the cost delta, update_transitions_and_violation_fast keeps the schedule's maintenance violation equal to the sum of the per-type totals; the other schedule aggregates (costs across whole modifications, unserved passengers, maintenance violation) are NOT decided",
     level_note="trusted: as C01 plus A-iter sums (Sum for Distance/Duration folds with +; integer sums do not wrap); Network::bounded magnitudes are a stated precondition",
     scope="the five per-tour caches under the constructor and all four modifiers; depot-usage bookkeeping of one vehicle update",
     assumptions=A_COMMON + A_ITER + ["Schedule.{costs, unserved_passengers, maintenance_violation, depot_usage} delta updates are not under contract"],
